@@ -100,6 +100,9 @@ func (e EmailVerify) PostStart(w http.ResponseWriter, r *http.Request) error {
 	}
 
 	authboss.PutSession(w, authboss.Session2FAAuthToken, token)
+	authboss.PutSession(w, authboss.Session2FAAuthPID, user.GetPID())
+	// An earlier verification in this session may have been another user's
+	authboss.DelSession(w, authboss.Session2FAAuthed)
 	logger.Infof("generated new 2fa e-mail verify token for user: %s", user.GetPID())
 	if e.Authboss.Config.Modules.MailNoGoroutine {
 		e.SendVerifyEmail(ctx, user.GetEmail(), token)
@@ -165,8 +168,9 @@ func (e EmailVerify) End(w http.ResponseWriter, r *http.Request) error {
 
 	givenToken, _ := authboss.GetSession(r, authboss.Session2FAAuthToken)
 
-	// Without a token in the session there is nothing that could be verified
-	if len(givenToken) == 0 || 1 != subtle.ConstantTimeCompare([]byte(wantToken), []byte(givenToken)) {
+	// Without a token in the session there is nothing that could be verified,
+	// and a token verifies the user it was mailed to, nobody else
+	if len(givenToken) == 0 || 1 != subtle.ConstantTimeCompare([]byte(wantToken), []byte(givenToken)) || !e.sameUser(r) {
 		ro := authboss.RedirectOptions{
 			Code:         http.StatusTemporaryRedirect,
 			Failure:      e.Localizef(r.Context(), authboss.TxtInvalid2FAVerificationToken),
@@ -196,7 +200,7 @@ func (e EmailVerify) Wrap(handler http.Handler) http.Handler {
 
 		// If this value exists the user's already verified
 		authed, _ := authboss.GetSession(r, authboss.Session2FAAuthed)
-		if authed == "true" {
+		if authed == "true" && e.sameUser(r) {
 			handler.ServeHTTP(w, r)
 			return
 		}
@@ -214,6 +218,21 @@ func (e EmailVerify) Wrap(handler http.Handler) http.Handler {
 			return
 		}
 	})
+}
+
+// sameUser reports whether the session's e-mail verification belongs to the
+// user the session is logged in as now. A login does not end the session of
+// a previous one, so the values of another user's verification can still be
+// around.
+func (e EmailVerify) sameUser(r *http.Request) bool {
+	pid, ok := authboss.GetSession(r, authboss.Session2FAAuthPID)
+	if !ok {
+		// sessions from before the value was recorded
+		return true
+	}
+
+	current, err := e.Authboss.CurrentUserID(r)
+	return err == nil && current == pid
 }
 
 // EmailVerifyTokenValuer returns a token from the body
